@@ -49,6 +49,10 @@ def gen_wb(rng, fmt, small=False):
                   for i, (n, _, _) in enumerate(sheets)]
     nn = rng.choice([0, 0, 1, 2, 3, 5])
     dn = mg.unique_names(rng, nn)
+    if fmt == "xlsx" and len(dn) >= 2 and rng.random() < 0.35:
+        # the same identifier defined twice (legal when the scopes differ: a sheet-local Total next to
+        # the workbook's, the _xlnm.Print_Area of every sheet): every definition is listed
+        dn[rng.randrange(1, len(dn))] = dn[0]
     return {"sheets": sheets, "dnames": dn, "d1904": rng.random() < 0.5}
 
 
